@@ -162,9 +162,12 @@ struct Exec {
         if (a.form == F_VARN) {
             int num = (int)a.nstart.size();
             std::vector<std::vector<MPI_Offset>> S(num), C(num); std::vector<MPI_Offset *> Sp(num), Cp(num);
-            for (int i = 0; i < num; i++) { S[i].assign(a.nstart[i].begin(), a.nstart[i].end()); C[i].assign(a.ncount[i].begin(), a.ncount[i].end()); if (S[i].empty()) S[i].push_back(0); if (C[i].empty()) C[i].push_back(1); Sp[i] = S[i].data(); Cp[i] = C[i].data(); }
-            if (a.flexible) rc = api_varn_flex(kind, op.coll, ncid, varid, num, Sp.data(), Cp.data(), ub->ptr(), ub->bufcount, ub->btype, req);
-            else rc = api_varn_typed(kind, op.coll, ncid, varid, num, Sp.data(), Cp.data(), ub->ptr(), a.memtype, req);
+            for (int i = 0; i < num; i++) { S[i].assign(a.nstart[i].begin(), a.nstart[i].end()); C[i].assign(a.ncount[i].begin(), a.ncount[i].end()); if (S[i].empty()) S[i].push_back(0); if (C[i].empty()) C[i].push_back(1); Sp[i] = S[i].data(); Cp[i] = C[i].data();
+                // a NULL counts[i] means 'one element': used for every other single-element sub-request (and counts == NULL altogether when all are)
+                bool ones = true; for (auto x : C[i]) if (x != 1) ones = false; if (ones && ((opi + i) % 2 == 0) && !a.ncount[i].empty()) Cp[i] = nullptr; }
+            { bool alln = num > 0; for (int i = 0; i < num; i++) if (Cp[i]) alln = false; if (alln && opi % 3 == 0) Cp.clear(); }
+            if (a.flexible) rc = api_varn_flex(kind, op.coll, ncid, varid, num, Sp.data(), Cp.empty() ? nullptr : Cp.data(), ub->ptr(), ub->bufcount, ub->btype, req);
+            else rc = api_varn_typed(kind, op.coll, ncid, varid, num, Sp.data(), Cp.empty() ? nullptr : Cp.data(), ub->ptr(), a.memtype, req);
         } else if (a.form == F_VARD) {
             // filetype relative to the variable's begin, etype = the variable's external type
             MPI_Datatype ft = MPI_DATATYPE_NULL; bool own = false;
